@@ -58,6 +58,10 @@ type c16T2 struct {
 	Y *c16T2
 	Z c16T1
 }
+type c16BadSelf struct { // refers to itself before the field that cannot be handled
+	Next *c16BadSelf
+	C    chan int
+}
 type c16Unsupported struct {
 	A int
 	C chan int
@@ -209,6 +213,7 @@ func c16Kinds() []c16Kind {
 	}{
 		{"T1", c16T1{5, "s"}}, {"T2", c16T2{X: []int32{1, 2}, Y: &c16T2{Z: c16T1{1, "in"}}}}, {"list", []interface{}{int64(1), "two", []byte{3}}},
 		{"unsupported-chan", make(chan int)}, {"struct-with-chan", c16Unsupported{A: 1}}, {"nested-then-chan", map[string]interface{}{"a": []interface{}{int64(1), make(chan int)}}},
+		{"self-referential-with-chan", c16BadSelf{}}, {"pointer-to-self-referential-with-chan", &c16BadSelf{}},
 		{"cyclic", self}, {"bigint", []interface{}{bigI2("-18446744073709551615"), bigI2("5")}},
 	}
 	for _, f := range []codec.Format{codec.CBE, codec.CTE} {
@@ -252,6 +257,7 @@ func c16Kinds() []c16Kind {
 		}
 		var ops []c16Op
 		for _, u := range []ud{{"A-list", nil, "nil"}, {"A-list", []interface{}{}, "[]interface{}"}, {"H-struct-doc", c16T1{}, "T1"}, {"I-struct2-doc", c16T2{}, "T2"}, {"H-struct-doc", c16Unsupported{}, "struct-with-chan"},
+			{"H-struct-doc", c16BadSelf{}, "self-referential-with-chan"}, {"H-struct-doc", &c16BadSelf{}, "pointer-to-self-referential-with-chan"},
 			{"A-list", make(chan int), "chan"}, {"G-truncated", nil, "nil"}, {"J-dup-key", nil, "nil"}, {"F-over-limit", nil, "nil"}, {"E-at-limit", nil, "nil"}, {"C-records", nil, "nil"}, {"L-mid-rune-chunk", nil, "nil"}, {"D-chunked", nil, "nil"}} {
 			u := u
 			d := docs[u.doc]
